@@ -92,6 +92,7 @@ pub fn draw_plan(rng: &mut Prng, n: usize, key_seed: [u8; 32], verify_sample: Op
         switch_exp: if sequentialish { None } else { Some(k) },
         boundary: if sequentialish { 0 } else { rng.below(257) as u32 },
         threads,
+        align: None,
     }
 }
 
@@ -626,6 +627,7 @@ pub fn deep_plan(rng: &mut Prng, pool: &KeyPool<V512>) -> (WorldPlan, Vec<usize>
             switch_exp: Some(k),
             boundary: rng.below(257) as u32,
             threads,
+            align: None,
         },
         used,
     )
